@@ -34,8 +34,47 @@ func (fg *FnGen) stableRefs() []stableRef {
 func (fg *FnGen) havocCall(st *State, reach *Term) *State {
 	st2 := fg.havocAll(st)
 	fg.advanceClock() // the callee may have allocated objects that are now reachable through the heap
+	fg.preserveAcrossHavoc(st, st2, reach, nil)
+	return st2
+}
+
+// preserveAcrossHavoc: what an unknown callee (or, with li != nil, the unknown effects inside a loop body) cannot
+// change: non-escaping local cells and the messages named by `option stable`. For a loop, cells and fields the loop
+// body itself stores to are not preserved.
+func (fg *FnGen) preserveAcrossHavoc(st, st2 *State, reach *Term, li *loopInfo) {
+	storedRoots := map[ssa.Value]bool{}
+	storesThroughParam := false
+	if li != nil {
+		for b := range li.body {
+			for _, ins := range b.Instrs {
+				s, ok := ins.(*ssa.Store)
+				if !ok {
+					continue
+				}
+				v := s.Addr
+				for {
+					switch a := v.(type) {
+					case *ssa.FieldAddr:
+						v = a.X
+						continue
+					case *ssa.IndexAddr:
+						v = a.X
+						continue
+					}
+					break
+				}
+				storedRoots[v] = true
+				if _, isAlloc := v.(*ssa.Alloc); !isAlloc {
+					storesThroughParam = true
+				}
+			}
+		}
+	}
 	// stack-allocated locals (go/ssa: Alloc with Heap == false) do not escape: no callee can write them
 	for _, sc := range fg.stackCells {
+		if li != nil && (sc.src == nil || storedRoots[sc.src]) {
+			continue
+		}
 		if stt, ok := sc.ty.Underlying().(*types.Struct); ok {
 			for i := 0; i < stt.NumFields(); i++ {
 				if _, isStruct := stt.Field(i).Type().Underlying().(*types.Struct); isStruct {
@@ -49,6 +88,9 @@ func (fg *FnGen) havocCall(st *State, reach *Term) *State {
 		name, hs := fg.cellVar(sc.ty)
 		fg.assume(Eq(Select(fg.lookup(st2, name, hs), sc.ref), Select(fg.lookup(st, name, hs), sc.ref)))
 	}
+	if li != nil && storesThroughParam {
+		return
+	}
 	for _, sr := range fg.stableRefs() {
 		stt, nt, _ := isStructPtr(sr.ty)
 		for i := 0; i < stt.NumFields(); i++ {
@@ -60,7 +102,6 @@ func (fg *FnGen) havocCall(st *State, reach *Term) *State {
 		}
 		fg.g.useTrusted("callees do not modify the message a request parameter points to (option stable " + sr.name + " in " + fg.name + ")")
 	}
-	return st2
 }
 
 // freshSubObjects: the embedded (by-value) struct fields of a freshly allocated object are themselves fresh objects.
